@@ -8,21 +8,60 @@ fn canonical_bits(b: u32) -> bool {
     b != 0x8000_0000 && !(e == 0 && m != 0) && (!(e == 0xff && m != 0) || b == 0x7fc0_0000)
 }
 
-//@ tier=quick timeout=900 bits=32 fns=warp_math::scalar::F32Scalar::sin_cos,warp_math::trig::sin_cos_f32,warp_math::trig::sin_qtr_interp,warp_math::trig_lut::sin_qtr_sample
-//@ bounds="|x| < TAU (range reduction by rem_euclid is the identity there); larger |x| in c19_trig_symmetry_reduced"
-//@ desc="for every finite |x|<TAU: sin(-x) bits == (-sin x) bits, cos(-x) bits == cos x bits, |sin|,|cos| <= 1, outputs canonical"
+#[inline(always)]
+fn symmetry(x: f32) {
+    let (s, c) = F32Scalar::new(x).sin_cos();
+    let (s2, c2) = F32Scalar::new(-x).sin_cos();
+    assert!(s2.to_f32().to_bits() == (-s).to_f32().to_bits(), "sin is not exactly odd");
+    assert!(c2.to_f32().to_bits() == c.to_f32().to_bits(), "cos is not exactly even");
+    assert!(s.to_f32() >= -1.0 && s.to_f32() <= 1.0, "sin out of [-1,1]");
+    assert!(c.to_f32() >= -1.0 && c.to_f32() <= 1.0, "cos out of [-1,1]");
+    assert!(canonical_bits(s.to_f32().to_bits()) && canonical_bits(c.to_f32().to_bits()));
+}
+
+//@ tier=quick timeout=900 bits=32 fns=warp_math::scalar::F32Scalar::sin_cos,warp_math::trig::sin_cos_f32
+//@ bounds="all finite x; f32::rem_euclid replaced by its contract (exact identity for 0<=x<TAU, else some r in [0,TAU), functional); sin_qtr_interp abstracted as an arbitrary function f with range [0,1] and f(0)=+0 (both facts decided on the real code by c19_trig_interp_range)"
+//@ desc="sin(-x) bits == (-sin x) bits, cos(-x) bits == cos x bits, |sin|,|cos| <= 1, outputs canonical - for every finite x, for every quarter-wave table"
 proof! {
-    fn c19_trig_symmetry_small() {
+    #[cfg_attr(kani, kani::stub(f32::rem_euclid, crate::stubs::rem_euclid_contract))]
+    #[cfg_attr(kani, kani::stub(warp_math::trig::sin_qtr_interp, crate::stubs::sin_qtr_interp_uf))]
+    fn c19_trig_symmetry_abstract() {
+        let x: f32 = kani::any();
+        kani::assume(x.is_finite());
+        symmetry(x);
+        reach!();
+    }
+}
+
+//@ tier=quick timeout=1800 bits=32 fns=warp_math::trig::sin_qtr_interp,warp_math::trig_lut::sin_qtr_sample,warp_math::scalar::F32Scalar::sin_cos
+//@ bounds="0 <= x < PI/2 (quadrant 0: sin x = interp(x), cos x = interp(PI/2 - x), which together cover every interp argument in [0, PI/2]); rem_euclid by contract (identity here)"
+//@ desc="the real quarter-wave interpolation (1025-entry table) stays within [0,1], indexes the table in range and never panics"
+proof! {
+    #[cfg_attr(kani, kani::stub(f32::rem_euclid, crate::stubs::rem_euclid_contract))]
+    fn c19_trig_interp_range() {
+        let x: f32 = kani::any();
+        kani::assume(x >= 0.0 && x < core::f32::consts::FRAC_PI_2);
+        let (s, c) = F32Scalar::new(x).sin_cos();
+        assert!(s.to_f32() >= 0.0 && s.to_f32() <= 1.0);
+        assert!(c.to_f32() >= 0.0 && c.to_f32() <= 1.0);
+        assert!(canonical_bits(s.to_f32().to_bits()) && canonical_bits(c.to_f32().to_bits()), "sin/cos output not canonical");
+        // interp(0) == +0 exactly: the one fact about the table the symmetry abstraction uses
+        // (F32Scalar flushes -0 and subnormals to +0, so sin must vanish there to stay odd).
+        if x == 0.0 { assert!(s.to_f32().to_bits() == 0, "sin(0) != +0"); }
+        reach!();
+    }
+}
+
+//@ tier=thorough timeout=3600 bits=32 fns=warp_math::scalar::F32Scalar::sin_cos,warp_math::trig::sin_cos_f32,warp_math::trig::sin_qtr_interp
+//@ bounds="|x| < TAU; rem_euclid by contract (exact identity on this range); real interpolation and table"
+//@ desc="exact odd/even symmetry, range and canonical outputs with the real interpolation code"
+proof! {
+    #[cfg_attr(kani, kani::stub(f32::rem_euclid, crate::stubs::rem_euclid_contract))]
+    fn c19_trig_symmetry_real_small() {
         let x: f32 = kani::any();
         kani::assume(x.is_finite());
         kani::assume(x.abs() < core::f32::consts::TAU);
-        let (s, c) = F32Scalar::new(x).sin_cos();
-        let (s2, c2) = F32Scalar::new(-x).sin_cos();
-        assert!(s2.to_f32().to_bits() == (-s).to_f32().to_bits());
-        assert!(c2.to_f32().to_bits() == c.to_f32().to_bits());
-        assert!(s.to_f32() >= -1.0 && s.to_f32() <= 1.0);
-        assert!(c.to_f32() >= -1.0 && c.to_f32() <= 1.0);
-        assert!(canonical_bits(s.to_f32().to_bits()) && canonical_bits(c.to_f32().to_bits()));
+        symmetry(x);
         reach!();
     }
 }
